@@ -87,6 +87,31 @@ def vars_of(t, acc=None):
     return acc
 
 
+_CACHE = {}
+
+
+def _memo(spec):
+    """per-spec memo (specs are immutable once built); keyed by identity, the spec is kept alive by the entry"""
+    e = _CACHE.get(id(spec))
+    if e is None or e[0] is not spec:
+        if len(_CACHE) > 64:
+            _CACHE.clear()
+        e = _CACHE[id(spec)] = (spec, {})
+    return e[1]
+
+
+def memoised(fn):
+    def wrapper(spec, name):
+        m = _memo(spec)
+        k = (fn.__name__, name)
+        if k not in m:
+            m[k] = fn(spec, name)
+        return m[k]
+    wrapper.__name__ = fn.__name__
+    wrapper.__doc__ = fn.__doc__
+    return wrapper
+
+
 def get_class(spec, name):
     for c in spec["classes"]:
         if c["name"] == name:
@@ -94,6 +119,7 @@ def get_class(spec, name):
     raise KeyError(name)
 
 
+@memoised
 def class_params(spec, name):
     """Python's rule: the parameters listed in Generic[...] when it is given, otherwise the type variables of the
     subscripted bases in order of first appearance."""
@@ -140,10 +166,13 @@ class Illegal(Exception):
 
 def bind(params, args):
     """parameter list x (flattened) argument list -> environment {name: texpr | tuple of items for a TypeVarTuple}"""
-    args = flatten_args([freeze(a) for a in args])
+    raw = [freeze(a) for a in args]
+    args = flatten_args(raw)
     tuples = [p for p in params if TYPEVARS[p]["kind"] == "tuple"]
     if len(tuples) > 1:
         raise Illegal("more than one TypeVarTuple in a parameter list")
+    if not tuples and any(a[0] == "unpack_tuple" for a in raw):
+        raise Illegal("*tuple[...] argument for a class without a TypeVarTuple (typing refuses it at run time)")
     env = {}
     if not tuples:
         if len(args) != len(params):
@@ -253,6 +282,7 @@ def legality(spec):
             if len({b["cls"] for b in c["bases"]}) != len(c["bases"]):
                 raise Illegal("duplicate base class")
             seen.add(c["name"])
+            mro(spec, c["name"])
     except Illegal as e:
         return str(e)
     return None
@@ -260,32 +290,74 @@ def legality(spec):
 
 # ---------------------------------------------------------------------------------------------- the substitution itself
 
-def members(spec, name, _memo=None):
+@memoised
+def mro(spec, name):
+    """C3 linearisation (the Python data model): which class's declaration of a field a subclass sees"""
+    c = get_class(spec, name)
+    seqs = [mro(spec, b["cls"]) for b in c["bases"]] + [[b["cls"] for b in c["bases"]]]
+    seqs = [list(q) for q in seqs if q]
+    out = [name]
+    while seqs:
+        for q in seqs:
+            head = q[0]
+            if not any(head in o[1:] for o in seqs):
+                break
+        else:
+            raise Illegal("no consistent method resolution order")
+        out.append(head)
+        seqs = [[x for x in q if x != head] for q in seqs]
+        seqs = [q for q in seqs if q]
+    return out
+
+
+def declaring_class(spec, name, field):
+    for k in mro(spec, name):
+        if any(f == field for f, _ in get_class(spec, k)["fields"]):
+            return k
+    raise KeyError(field)
+
+
+def edge_paths(spec, name, target):
+    """all chains of base edges from `name` to `target`: list of lists of (child, edge)"""
+    if name == target:
+        return [[]]
+    out = []
+    for b in get_class(spec, name)["bases"]:
+        for p in edge_paths(spec, b["cls"], target):
+            out.append([(name, b), *p])
+    return out
+
+
+@memoised
+def members(spec, name):
     """field -> set of annotations (in terms of the parameters of class `name`).
 
-    A class's own annotation shadows whatever the bases say.  An inherited field is looked up in every base that has it and
-    substituted through that base edge; if the edges disagree the set has several elements: typing calls such a class
-    ill-typed (incompatible definitions in the bases) and the oracle compares nothing for that field."""
-    _memo = {} if _memo is None else _memo
-    if name in _memo:
-        return _memo[name]
-    c = get_class(spec, name)
+    The field a class has is the declaration of the first class of its MRO that annotates it (Python data model; for
+    dataclasses: "fields are collected in reverse MRO order").  The annotation is substituted through the base edges that lead
+    from `name` to that declaring class.  If several chains of edges lead there and bind its variables differently, the set has
+    several elements: nothing says which binding counts, and the oracle compares nothing for that field."""
     out = {}
-    for b in c["bases"]:
-        bparams = class_params(spec, b["cls"])
-        env = bind(bparams, implicit_args(bparams) if b["args"] is None else b["args"])
-        for f, anns in members(spec, b["cls"], _memo).items():
-            out.setdefault(f, set()).update(subst(a, env) for a in anns)
-    for f, ann in c["fields"]:
-        out[f] = {freeze(ann)}
-    _memo[name] = out
+    for k in mro(spec, name):
+        for f, _ in get_class(spec, k)["fields"]:
+            if f in out:
+                continue
+            decl = declaring_class(spec, name, f)
+            ann = next(freeze(a) for g, a in get_class(spec, decl)["fields"] if g == f)
+            types = set()
+            for path in edge_paths(spec, name, decl):
+                t = ann
+                for _, edge in reversed(path):
+                    bparams = class_params(spec, edge["cls"])
+                    t = subst(t, bind(bparams, implicit_args(bparams) if edge["args"] is None else edge["args"]))
+                types.add(t)
+            out[f] = types
     return out
 
 
 def resolve(spec, leaf, args):
     """field -> set of concrete field types for leaf[args] (args None = bare use)"""
     params = class_params(spec, leaf)
-    env = check_args(params, implicit_args(params) if args is None else args)
+    env = bind(params, implicit_args(params)) if args is None else check_args(params, args)
     return {f: {subst(a, env) for a in anns} for f, anns in members(spec, leaf).items()}
 
 
@@ -357,15 +429,8 @@ def _has_generic_ancestor(spec, name):
 
 
 def field_paths(spec, name, field):
-    """all chains of base edges from `name` down to a class that declares `field`: list of lists of (child, edge)"""
-    c = get_class(spec, name)
-    if any(f == field for f, _ in c["fields"]):
-        return [[]]
-    out = []
-    for b in c["bases"]:
-        for p in field_paths(spec, b["cls"], field):
-            out.append([(name, b), *p])
-    return out
+    """all chains of base edges from `name` to the class whose declaration of `field` it sees"""
+    return edge_paths(spec, name, declaring_class(spec, name, field))
 
 
 def field_shape(spec, leaf, field, args_feature=()):
@@ -387,13 +452,12 @@ def field_shape(spec, leaf, field, args_feature=()):
         for i in range(1, len(arities) - 1):
             if arities[i] == 0 and arities[i - 1] > 0 and any(a > 0 for a in arities[i + 1:]):
                 feats.add("nongeneric_mid")
-    if len(declarations(spec, field)) > 1:
-        # declared in more than one class: is one of them above another on a path from the leaf?
-        for c in spec["classes"]:
-            if any(f == field for f, _ in c["fields"]):
-                for b in c["bases"]:
-                    if field in members(spec, b["cls"]):
-                        feats.add("override")
+    declaring = [k for k in mro(spec, leaf) if any(f == field for f, _ in get_class(spec, k)["fields"])]
+    for k in declaring[1:]:
+        if k in mro(spec, declaring[0]):
+            feats.add("override")             # re-annotation of an inherited field
+        else:
+            feats.add("same_name_bases")      # unrelated bases declare the same field: the MRO decides
     for c in spec["classes"]:
         if c["generic"] is not None and c["bases"]:
             implicit = []
